@@ -3,6 +3,7 @@ package main
 import (
 	"fmt"
 	"go/ast"
+	"sort"
 	"go/token"
 	"strings"
 )
@@ -289,6 +290,172 @@ func extractC13() *lean {
 	l.def("generatedDocumentContextAssignments", "Nat", fmt.Sprint(genAssign), genAssign)
 	l.def("nutsEmptyDocumentContexts", "List String", leanStrList(nutsCtx), nutsCtx)
 	l.def("nutsEmptyDocumentContextAssignments", "Nat", fmt.Sprint(nutsAssign), nutsAssign)
+
+	// ---- vdr/vdr.go: who calls Rollback, and which manager is registered for which method
+	_, vdrF := parseFile("vdr/vdr.go")
+	var loop []string
+	if fd := c13Method(vdrF, "Module", "rollbackLoop"); fd != nil {
+		var walk func(n ast.Node, where string)
+		walk = func(n ast.Node, where string) {
+			ast.Inspect(n, func(m ast.Node) bool {
+				switch x := m.(type) {
+				case *ast.CallExpr:
+					switch exprString(x.Fun) {
+					case "time.NewTicker":
+						sec := ".unknown"
+						if len(x.Args) == 1 {
+							if v := c13Seconds(x.Args[0]); v != "" {
+								sec = v
+							}
+						}
+						loop = append(loop, where+"ticker:"+sec)
+					case "r.Rollback":
+						loop = append(loop, where+"Rollback")
+					}
+				case *ast.ForStmt:
+					loop = append(loop, where+"for")
+					walk(x.Body, where+"for/")
+					return false
+				case *ast.CommClause:
+					c := "default"
+					if x.Comm != nil {
+						if es, ok := x.Comm.(*ast.ExprStmt); ok {
+							c = exprString(es.X)
+						}
+					}
+					for _, st := range x.Body {
+						walk(st, where+"case "+c+"/")
+						if _, ok := st.(*ast.ReturnStmt); ok {
+							loop = append(loop, where+"case "+c+"/return")
+						}
+					}
+					return false
+				}
+				return true
+			})
+		}
+		walk(fd.Body, "")
+	} else {
+		loop = []string{"MISSING"}
+	}
+	l.def("rollbackLoopShape", "List String", leanStrList(loop), loop)
+	startsLoop, guarded := false, ""
+	if fd := c13Method(vdrF, "Module", "Start"); fd != nil {
+		ast.Inspect(fd, func(n ast.Node) bool {
+			switch x := n.(type) {
+			case *ast.GoStmt:
+				ast.Inspect(x, func(m ast.Node) bool {
+					if c, ok := m.(*ast.CallExpr); ok && exprString(c.Fun) == "r.rollbackLoop" {
+						startsLoop = true
+					}
+					return true
+				})
+			case *ast.IfStmt:
+				for _, st := range x.Body.List {
+					if _, ok := st.(*ast.ReturnStmt); ok && guarded == "" && !startsLoop {
+						guarded = exprString(x.Cond)
+					}
+				}
+			}
+			return true
+		})
+	}
+	l.def("startLaunchesRollbackLoop", "Bool", c13Bool(startsLoop), startsLoop)
+	l.def("startReturnsEarlyWhen", "String", fmt.Sprintf("%q", guarded), guarded)
+	var regs []string
+	newArgs := ""
+	ctor := map[string]string{}
+	if fd := c13Method(vdrF, "Module", "Configure"); fd != nil {
+		ast.Inspect(fd, func(n ast.Node) bool {
+			as, ok := n.(*ast.AssignStmt)
+			if !ok || len(as.Lhs) != 1 || len(as.Rhs) != 1 {
+				return true
+			}
+			lhs := exprString(as.Lhs[0])
+			if ix, ok := as.Lhs[0].(*ast.IndexExpr); ok && exprString(ix.X) == "methodManagers" {
+				v := exprString(as.Rhs[0])
+				if c, ok := ctor[v]; ok {
+					v = c
+				}
+				regs = append(regs, exprString(ix.Index)+"="+v)
+			}
+			if c, ok := as.Rhs[0].(*ast.CallExpr); ok {
+				f := exprString(c.Fun)
+				if f == "didnuts.NewManager" || f == "didweb.NewManager" {
+					ctor[lhs] = f
+				}
+				if f == "didsubject.New" && lhs == "r.Manager" {
+					var a []string
+					for _, e := range c.Args {
+						a = append(a, exprString(e))
+					}
+					newArgs = strings.Join(a, ",")
+				}
+			}
+			return true
+		})
+	}
+	l.def("methodManagerRegistrations", "List String", leanStrList(regs), regs)
+	l.def("subjectManagerConstruction", "String", fmt.Sprintf("%q", newArgs), newArgs)
+	l.def("moduleOverridesRollback", "Bool", c13Bool(c13Method(vdrF, "Module", "Rollback") != nil), c13Method(vdrF, "Module", "Rollback") != nil)
+
+	// ---- method names, DIDChangeLog.Method, and the queries behind "latest version"
+	c13Const := func(rel, name string) string {
+		_, f := parseFile(rel)
+		val := "MISSING"
+		ast.Inspect(f, func(n ast.Node) bool {
+			if vs, ok := n.(*ast.ValueSpec); ok {
+				for i, id := range vs.Names {
+					if id.Name == name && i < len(vs.Values) {
+						val = strings.Trim(exprString(vs.Values[i]), "\"")
+					}
+				}
+			}
+			return true
+		})
+		return val
+	}
+	names := []string{c13Const("vdr/didnuts/manager.go", "MethodName"), c13Const("vdr/didweb/web.go", "MethodName")}
+	l.def("methodNames", "List String", leanStrList(names), names)
+	_, clog := parseFile("storage/orm/changelog.go")
+	var methodReturns []string
+	if fd := c13Method(clog, "DIDChangeLog", "Method"); fd != nil {
+		ast.Inspect(fd, func(n ast.Node) bool {
+			if r, ok := n.(*ast.ReturnStmt); ok && len(r.Results) == 1 {
+				methodReturns = append(methodReturns, exprString(r.Results[0]))
+			}
+			if c, ok := n.(*ast.CallExpr); ok && exprString(c.Fun) == "did.ParseDID" && len(c.Args) == 1 {
+				methodReturns = append(methodReturns, "parse:"+exprString(c.Args[0]))
+			}
+			return true
+		})
+	}
+	l.def("changeLogMethod", "List String", leanStrList(methodReturns), methodReturns)
+	c13Query := func(fd *ast.FuncDecl) []string {
+		var q []string
+		if fd == nil {
+			return []string{"MISSING"}
+		}
+		ast.Inspect(fd, func(n ast.Node) bool {
+			if c, ok := n.(*ast.CallExpr); ok {
+				if sel, ok := c.Fun.(*ast.SelectorExpr); ok && len(c.Args) >= 1 {
+					switch sel.Sel.Name {
+					case "Order", "Preload", "Where":
+						if lit, ok := c.Args[0].(*ast.BasicLit); ok {
+							q = append(q, sel.Sel.Name+":"+strings.Trim(lit.Value, "\"`"))
+						}
+					}
+				}
+			}
+			return true
+		})
+		sort.Strings(q)
+		return q
+	}
+	latestQ := c13Query(c13Method(dd, "SqlDIDDocumentManager", "Latest"))
+	couQ := c13Query(c13Method(dd, "SqlDIDDocumentManager", "CreateOrUpdate"))
+	l.def("latestQuery", "List String", leanStrList(latestQ), latestQ)
+	l.def("createOrUpdateQuery", "List String", leanStrList(couQ), couQ)
 
 	// ---- did:web: Commit is a no-op that cannot fail, IsCommitted is always true
 	_, web := parseFile("vdr/didweb/manager.go")
